@@ -215,13 +215,17 @@ func Supervise(a SupArgs) int {
 	if len(s.total.Samples) == 0 {
 		cov["samples"] = []string{"(no sample recorded)"}
 	}
+	assumptions := p.Assumptions
+	if assumptions == nil {
+		assumptions = []string{}
+	}
 	ev := map[string]any{
 		"property_id": p.ID,
 		"tier":        a.Tier.String(),
 		"seed":        a.Seed,
 		"level":       "exploration",
 		"coverage":    cov,
-		"assumptions": p.Assumptions,
+		"assumptions": assumptions,
 		"wall_s":      time.Since(start).Seconds(),
 		"violations":  len(fresh),
 		"verdict":     map[int]string{0: "held on what was observed", 1: "violated", 2: "harness error"}[exit],
